@@ -413,3 +413,123 @@ func closeRaces(trials int) {
 	}
 	wg.Wait()
 }
+
+// expiredIdleWindows: a connection whose idle timer has fired but whose reader
+// has not reacted yet (the timed-out Read returns late) is still in the pool /
+// still the pipeline's connection. A query that arrives in that window may be
+// retried or may fail, but it must return, later calls must return, and Close
+// must return and release everything.
+func expiredIdleWindows(rounds int) {
+	var wg sync.WaitGroup
+	for i := 0; i < rounds; i++ {
+		for _, tr := range []string{"reuse", "pipe-stream", "pipe-dgram"} {
+			wg.Add(1)
+			go func(i int, tr string) {
+				defer wg.Done()
+				rep.Eval(1)
+				caselog.Log(map[string]any{"expired_idle_window": tr, "round": i})
+				const idle = 40 * time.Millisecond
+				lateBy := time.Duration(150+50*(i%3)) * time.Millisecond
+				net := fakenet.NewNet()
+				var mu sync.Mutex
+				defr := map[*fakenet.Conn]*wire.Deframer{}
+				stream := tr != "pipe-dgram"
+				onWrite := func(c *fakenet.Conn, data []byte) error {
+					var msgs [][]byte
+					mu.Lock()
+					if stream {
+						msgs = defr[c].Feed(data)
+					} else {
+						msgs = [][]byte{append([]byte(nil), data...)}
+					}
+					mu.Unlock()
+					for _, m := range msgs {
+						qi, err := dnsadv.ParseQuery(m)
+						if err != nil {
+							continue
+						}
+						r := dnsadv.Reply(qi.WireID, 0x8180, qi.QSect, fmt.Sprintf("eiw/%d", qi.Seq), 0, 0)
+						if stream {
+							r = wire.Frame(r)
+						}
+						c.Inject(r)
+					}
+					return nil
+				}
+				dial := func() *fakenet.Conn {
+					c := net.NewConn(stream)
+					c.DelayReadTimeout = lateBy
+					mu.Lock()
+					defr[c] = &wire.Deframer{}
+					mu.Unlock()
+					c.OnWrite = onWrite
+					return c
+				}
+				var t exch
+				if tr == "reuse" {
+					t = transport.NewReuseConnTransport(transport.ReuseConnOpts{IdleTimeout: idle,
+						DialContext: func(ctx context.Context) (transport.NetConn, error) { return dial(), nil }})
+				} else {
+					t = transport.NewPipelineTransport(transport.PipelineOpts{MaxConcurrentQueryWhileDialing: 64,
+						DialContext: func(ctx context.Context) (transport.DnsConn, error) {
+							return transport.NewDnsConn(transport.TraditionalDnsConnOpts{WithLengthHeader: stream, MaxConcurrentQuery: 64, IdleTimeout: idle}, dial()), nil
+						}})
+				}
+				wit := map[string]any{"transport": tr, "idle_timeout_ms": idle.Milliseconds(), "timed_out_read_returns_late_by_ms": lateBy.Milliseconds(), "round": i}
+				one := func(what string) bool {
+					seq := int(seqCtr.Add(1))
+					ctx, cancel := context.WithTimeout(context.Background(), 2*time.Second)
+					defer cancel()
+					done := make(chan error, 1)
+					go func() {
+						r, err := t.ExchangeContext(ctx, dnsadv.Query(uint16(seq), seq, 1, "c07", 1))
+						if err == nil {
+							pool.ReleaseBuf(r)
+						}
+						done <- err
+					}()
+					select {
+					case err := <-done:
+						if err == nil {
+							rep.Count("expired_idle_window_calls_answered", 1)
+						} else {
+							rep.Count("expired_idle_window_calls_failed(returned)", 1)
+							rep.SetAdd("expired_idle_window_errors", tr+": "+what+": "+err.Error())
+						}
+						return true
+					case <-time.After(2*time.Second + wCtx):
+						wit["goroutines"] = trunc(leak.Full(), 80000)
+						rep.Violation("call-did-not-return-expired-idle-window-"+tr, fmt.Sprintf("%s: exchange did not return %.0f s after its context ended (server answers every query at once)", what, wCtx.Seconds()), wit)
+						return false
+					}
+				}
+				ok := one("first query")
+				for k := 0; ok && k < 3; k++ {
+					// inside the window: the idle timer has fired, the reader returns lateBy later
+					time.Sleep(idle + time.Duration(20+30*k)*time.Millisecond)
+					ok = one(fmt.Sprintf("query sent %d ms after the idle timer fired", 20+30*k))
+				}
+				closed := make(chan struct{})
+				go func() { t.Close(); close(closed) }()
+				select {
+				case <-closed:
+					if ok {
+						rep.Nontrivial(fmt.Sprintf("expired-idle-window|%s|%d", tr, i))
+					}
+				case <-time.After(wCtx):
+					if ok {
+						wit["goroutines"] = trunc(leak.Full(), 80000)
+						rep.Violation("close-did-not-return-expired-idle-window-"+tr, "transport Close() still blocked after 10 s", wit)
+					}
+					return
+				}
+				for _, c := range net.Conns() {
+					if !c.WaitClosed(wCtx) {
+						rep.Violation("conn-not-closed-after-close-expired-idle-window-"+tr, "connection still open 10 s after transport Close", wit)
+					}
+				}
+			}(i, tr)
+		}
+	}
+	wg.Wait()
+}
